@@ -496,6 +496,22 @@ func checkC01(h *History, vs []*opView) {
 				ok200++
 				// "still answered": the answer is to this query
 				m := v.resps[i]
+				if m.Rcode() == 2 && v.o.Op.Probe && v.outcome.Kind == "forward" && allActs(h.RP.Tokens[v.o.Op.Token], replyAct) && len(h.RP.Net.Partitions) == 0 && len(h.RP.Net.Connect) == 0 && h.RP.Net.UpDrop == 0 {
+					// ... unless the upstream misbehaved towards another exchange
+					// at about that time (a malformed reply or an abort takes a
+					// shared connection down, and its other exchanges with it)
+					disturbed := false
+					if u := h.Ups[v.outcome.Forward]; u != nil {
+						for _, rp := range u.Replies {
+							if rp.Kind != "reply" && rp.Kind != "dup" && rp.Kind != "tc" && rp.At+2*time.Second >= v.o.SentAt && rp.QueryAt <= v.o.Resps[i].At {
+								disturbed = true
+							}
+						}
+					}
+					if !disturbed {
+						h.S.Fail("C01", "stopped-serving", "op %d: valid query on %s listener after garbage input was answered SERVFAIL although its upstream replies to it and did nothing wrong at that time", v.o.Op.Idx, v.srv.Proto)
+					}
+				}
 				if m.ID != v.q.ID || len(m.Q) != 1 || len(v.q.Q) == 1 && (!m.Q[0].Name.Lower().Equal(v.q.Q[0].Name.Lower()) || m.Q[0].Type != v.q.Q[0].Type || m.Q[0].Class != v.q.Q[0].Class) {
 					h.S.Fail("C01", "answered-wrongly", "op %d: valid query on %s listener after garbage input was answered with id %d question %v (sent id %d question %v)", v.o.Op.Idx, v.srv.Proto, m.ID, m.Q, v.q.ID, v.q.Q)
 				}
